@@ -397,6 +397,18 @@ theorem ids_nodup_of_consistent (ins : List TxIn) (ids : List Nat) (hlen : ids.l
       · intro a ha b hb hab
         exact hc a (by simp [ha]) b (by simp [hb]) hab
 
+/-- acceptance for a transaction as `parse` builds it (a fresh object per input) -/
+theorem C20_check_accepts_fresh (c : Coin) (tx : Tx) (h : NoDefect c tx)
+    (b : Bytes) (hb : tx.asBin = .ok b) (hsz : b.length ≤ c.maxTxSize) :
+    check c tx (List.range tx.ins.length) = .ok () :=
+  C20_check_accepts c tx _ List.nodup_range h b hb hsz
+
+/-- acceptance when objects are shared: positions holding the same object hold the same fields, so a transaction
+without a duplicate outpoint holds no object twice -/
+theorem C20_check_accepts_shared (c : Coin) (tx : Tx) (ids : List Nat) (hlen : ids.length = tx.ins.length)
+    (hc : ∀ a ∈ ids.zip tx.ins, ∀ b ∈ ids.zip tx.ins, a.1 = b.1 → a.2 = b.2) (h : NoDefect c tx)
+    (b : Bytes) (hb : tx.asBin = .ok b) (hsz : b.length ≤ c.maxTxSize) : check c tx ids = .ok () :=
+  C20_check_accepts c tx ids (ids_nodup_of_consistent tx.ins ids hlen hc h.nodup) h b hb hsz
 /-! ## purity and the coinbase exemption -/
 
 /-- running the check hands the transaction back unchanged (no sub-check assigns to a field; on the implementation
